@@ -342,6 +342,94 @@ def fn_alias_inv_get(ren, x):
     return ren.get(x, x)
 
 
+def _perm_for(base_params, cur_params):
+    """for every baseline parameter position the current position holding it, or None when the signatures are not a reordering of one
+    another.  Same-typed parameters are told apart by their names when those are unchanged, by their relative order otherwise."""
+    if len(base_params) != len(cur_params) or sorted(t for t, _ in base_params) != sorted(t for t, _ in cur_params):
+        return None
+    used = set()
+    perm = [None] * len(base_params)
+    for i, (ty, nm) in enumerate(base_params):                  # unique type, or same type and same name
+        cands = [j for j, (t2, _) in enumerate(cur_params) if t2 == ty]
+        if len(cands) == 1:
+            perm[i] = cands[0]
+        else:
+            named = [j for j in cands if nm is not None and cur_params[j][1] == nm]
+            if len(named) == 1:
+                perm[i] = named[0]
+        if perm[i] is not None:
+            used.add(perm[i])
+    for i, (ty, nm) in enumerate(base_params):
+        if perm[i] is None:
+            cands = [j for j, (t2, _) in enumerate(cur_params) if t2 == ty and j not in used]
+            if not cands:
+                return None
+            perm[i] = cands[0]
+            used.add(cands[0])
+    return perm if len(set(perm)) == len(perm) else None
+
+
+def normalize_param_order(raws):
+    """Private functions whose parameters were only REORDERED (declaration and every call site alike) are put back into the baseline
+    order: the rules name parameters by position.  Returns {function: permutation} for the evidence.  A function that is also used as
+    a value (passed as a callback) is left alone."""
+    try:
+        base = json.load(open(BASELINE))
+    except Exception:
+        return {}
+    todo = {}
+    for raw in raws:
+        if raw['kind'] in ('bin', 'build'):
+            continue
+        for fr in raw['fns']:
+            b = base['fns'].get(fr['pretty'])
+            if not b or 'params' not in b or fr['kind'] == 'Closure':
+                continue
+            n = fr['arg_count']
+            curp = [(l['ty'], l.get('name')) for l in fr['locals'][1:n + 1]]
+            basep = [tuple(x) for x in b['params']]
+            if [t for t, _ in curp] == [t for t, _ in basep]:
+                continue
+            perm = _perm_for(basep, curp)
+            if perm is None or perm == list(range(n)):
+                continue
+            todo[fr['pretty']] = (perm, fr)
+    if not todo:
+        return {}
+
+    def relocal(x, m):
+        if isinstance(x, dict):
+            for k, v in x.items():
+                if k in ('local', 'index') and isinstance(v, int) and not isinstance(v, bool):
+                    x[k] = m.get(v, v)
+                else:
+                    relocal(v, m)
+        elif isinstance(x, list):
+            for v in x:
+                relocal(v, m)
+
+    for name, (perm, fr) in todo.items():
+        m = {perm[i] + 1: i + 1 for i in range(len(perm))}       # current local id -> baseline local id
+        relocal(fr['blocks'], m)
+        relocal(fr.get('debug_proj'), m)
+        args = fr['locals'][1:len(perm) + 1]
+        new = [dict(args[perm[i]], id=i + 1) for i in range(len(perm))]
+        fr['locals'][1:len(perm) + 1] = new
+    for raw in raws:
+        for fr in raw['fns']:
+            for b in fr['blocks']:
+                t_ = b['term']
+                if t_['k'] != 'call':
+                    continue
+                n = t_['callee'].get('pretty') or t_['callee'].get('declared')
+                if n in todo and len(t_['args']) == len(todo[n][0]):
+                    perm = todo[n][0]
+                    t_['args'] = [t_['args'][perm[i]] for i in range(len(perm))]
+                    if t_.get('arg_tys'):
+                        t_['arg_tys'] = [t_['arg_tys'][perm[i]] for i in range(len(perm))]
+    return {n: p for n, (p, _) in todo.items()}
+
+
 def apply_aliases(raw, fn_alias, field_alias):
     """rewrite one crate's facts to baseline names (functions incl. their closures; struct fields)"""
     pairs = sorted(fn_alias.items(), key=lambda kv: -len(kv[0]))
@@ -403,6 +491,7 @@ class Facts:
         self.fn_aliases, self.field_aliases = compute_aliases(raws)
         if self.fn_aliases or self.field_aliases:
             raws = [apply_aliases(r, self.fn_aliases, self.field_aliases) for r in raws]
+        self.param_orders = normalize_param_order(raws)
         for raw in raws:
             key = (raw['crate'], raw['kind'])
             self.crates[key] = raw
